@@ -318,6 +318,8 @@ class Algebra:
         r = self.norm(r)
         # perfect squares of single monomials with even exponents are not attempted; use an algebraic atom
         if r.d != Poly.const(1):
+            if r.n.is_const() and r.n.const_value() < 0:
+                r = Rat(-r.n, -r.d)      # n/d == (-n)/(-d): keep the constant under the root positive
             num = self.sqrt(Rat(r.n))
             den = self.sqrt(Rat(r.d))
             return num / den
